@@ -15,6 +15,7 @@ pub fn run(entry: &str, v: &Value) -> Option<Result<String, String>> {
         "svs_cancel_during_next" => svs_cancel_during_next(),
         "svs_producer_panic" => svs_producer_panic(),
         "fleet_wide_broadcast" => fleet_wide_broadcast(v),
+        "fleet_health_probe_malformed" => fleet_health_probe_malformed(),
         "peer_broadcast_payloads" => peer_broadcast_payloads(),
         "registry_message_bodies" => registry_message_bodies(),
         "client_emission_parity" => client_emission_parity(),
@@ -627,6 +628,19 @@ fn fleet_wide_broadcast(v: &Value) -> Result<String, String> {
             Ok(f) => f,
             Err(e) => return Ok(format!("inconclusive: fleet construction failed: {e}")),
         };
+        // nodes added later on the same host are nodes of their own
+        for j in 0..3 {
+            let c = repe::NodeConfig::new("127.0.0.1", 1).unwrap().with_name(format!("n{}", n + j)).unwrap().with_timeout(Duration::from_millis(200)).unwrap().with_tags(["late".to_string()]);
+            fleet.add_node(c.clone()).map_err(|e| format!("Fleet::add_node: {e}"))?;
+            rt.block_on(afleet.add_node(c)).map_err(|e| format!("AsyncFleet::add_node: {e}"))?;
+        }
+        let n0 = n;
+        let n = n + 3;
+        for (what, got) in [("Fleet", fleet.broadcast_json("/x", None, &["late"]).len()), ("AsyncFleet", rt.block_on(afleet.broadcast_json("/x", None, &["late"])).len())] {
+            if got != 3 {
+                return Err(format!("{what}: three nodes were added with add_node under the tag `late`; a broadcast to that tag addressed {got}"));
+            }
+        }
         let aall = rt.block_on(afleet.broadcast_json("/x", None, &[] as &[&str]));
         if aall.len() != n {
             return Err(format!("AsyncFleet broadcast to a fleet of {n} nodes reported {} nodes", aall.len()));
@@ -641,7 +655,7 @@ fn fleet_wide_broadcast(v: &Value) -> Result<String, String> {
             return Err(format!("broadcast to a fleet of {n} nodes reported {} nodes; missing e.g. {missing:?}", all.len()));
         }
         let third = fleet.broadcast_json("/x", None, &["third"]);
-        let want = (0..n).filter(|i| i % 3 == 0).count();
+        let want = (0..n0).filter(|i| i % 3 == 0).count();
         if third.len() != want {
             return Err(format!("broadcast to tag `third` in a fleet of {n} reported {} of {want} nodes", third.len()));
         }
@@ -1300,4 +1314,80 @@ fn client_emission_parity() -> Result<String, String> {
         }
     }
     Ok(format!("{} operations x 3 clients emitted the builder's frame", want.len()))
+}
+
+// ---------------------------------------------------------------------------------------------
+// C19: a transport failure never leaves the node wedged -- also when it happens on a health probe.
+// One scenario per fleet flavour: a call connects; the node answers the next request (the health
+// probe) with a corrupted frame; afterwards the node is healthy again. With max_attempts = 1 the
+// next call has exactly one attempt, so it succeeds only if the dead connection was dropped.
+fn fleet_health_probe_malformed() -> Result<String, String> {
+    use std::io::Write as _;
+    use std::sync::atomic::AtomicBool;
+    let mut out = Vec::new();
+    for use_async in [false, true] {
+        let listener = std::net::TcpListener::bind("127.0.0.1:0").unwrap();
+        let port = listener.local_addr().unwrap().port();
+        let garble = Arc::new(AtomicBool::new(false));
+        let conns = Arc::new(AtomicUsize::new(0));
+        let (g, c) = (garble.clone(), conns.clone());
+        std::thread::spawn(move || {
+            for stream in listener.incoming() {
+                let Ok(stream) = stream else { break };
+                c.fetch_add(1, Ordering::SeqCst);
+                let g = g.clone();
+                std::thread::spawn(move || {
+                    let mut reader = std::io::BufReader::new(stream.try_clone().unwrap());
+                    let mut writer = std::io::BufWriter::new(stream);
+                    while let Ok(req) = repe::read_message(&mut reader) {
+                        let resp = repe::Message::builder().id(req.header.id).query_bytes(req.query.clone()).query_format_code(req.header.query_format).body_json(&json!({"ok": true})).unwrap().build();
+                        let sent = if g.load(Ordering::SeqCst) {
+                            let mut bytes = resp.to_vec();
+                            bytes[8] ^= 0xff;
+                            bytes[9] ^= 0xff;
+                            writer.write_all(&bytes)
+                        } else {
+                            repe::write_message(&mut writer, &resp).map_err(std::io::Error::other)
+                        };
+                        if sent.is_err() || writer.flush().is_err() {
+                            return;
+                        }
+                    }
+                });
+            }
+        });
+        let cfg = repe::NodeConfig::new("127.0.0.1", port).unwrap().with_name("n").unwrap().with_timeout(Duration::from_secs(2)).unwrap();
+        let opts = repe::FleetOptions { retry_policy: repe::RetryPolicy { max_attempts: 1, delay: Duration::from_millis(10) }, ..Default::default() };
+        let which = if use_async { "AsyncFleet" } else { "Fleet" };
+        let rt = tokio::runtime::Builder::new_multi_thread().worker_threads(2).enable_all().build().unwrap();
+        let (first, healthy, again) = if use_async {
+            let f = repe::AsyncFleet::with_options(vec![cfg], opts).map_err(|e| e.to_string())?;
+            let first = rt.block_on(f.call_json("n", "/work", Some(&json!({"i": 1})))).map_err(|e| e.to_string())?.succeeded();
+            garble.store(true, Ordering::SeqCst);
+            let h = rt.block_on(f.health_check("/health"));
+            garble.store(false, Ordering::SeqCst);
+            let again = rt.block_on(f.call_json("n", "/work", Some(&json!({"i": 2})))).map_err(|e| e.to_string())?;
+            (first, h.get("n").map(|x| x.healthy), again.into_result().map_err(|e| e.to_string()))
+        } else {
+            let f = repe::Fleet::with_options(vec![cfg], opts).map_err(|e| e.to_string())?;
+            let first = f.call_json("n", "/work", Some(&json!({"i": 1}))).map_err(|e| e.to_string())?.succeeded();
+            garble.store(true, Ordering::SeqCst);
+            let h = f.health_check("/health");
+            garble.store(false, Ordering::SeqCst);
+            let again = f.call_json("n", "/work", Some(&json!({"i": 2}))).map_err(|e| e.to_string())?;
+            (first, h.get("n").map(|x| x.healthy), again.into_result().map_err(|e| e.to_string()))
+        };
+        rt.shutdown_background();
+        if !first {
+            return Ok(format!("inconclusive: the first call through {which} failed"));
+        }
+        if healthy != Some(false) {
+            return Ok(format!("inconclusive: the garbled health probe was reported as {healthy:?}"));
+        }
+        if let Err(e) = again {
+            return Err(format!("{which}: after a health probe was answered with a malformed frame the node is healthy again, yet the next call (max_attempts 1) failed with `{e}`: the dead connection was left cached, the node is wedged"));
+        }
+        out.push(format!("{which}: recovered on a new connection ({} connections)", conns.load(Ordering::SeqCst)));
+    }
+    Ok(out.join("; "))
 }
